@@ -406,6 +406,12 @@ func (ms *Modules) Process() []error {
 	// made by the same caller.
 	ms.mergedSubmodule = map[string]bool{}
 	ms.ClearEntryCache()
+	// Modules may have been added since the last call: link every import and
+	// include again, and forget which module each namespace denoted.
+	ms.includes = map[*Module]bool{}
+	ms.nsMu.Lock()
+	ms.byNS = map[string]*Module{}
+	ms.nsMu.Unlock()
 
 	errs := ms.process()
 	if len(errs) > 0 {
